@@ -3,12 +3,19 @@
 The implementation's automata (from scratch and assembled from the on-disk database) are exported as
 transition tables into a generated TLA+ module; TLC runs them in product with the pin machine over all words
 of the pin-sequence language up to a bound (invariant: accept iff the encoded permutation contains a basis
-element), checks language equivalence of the two tables on the (finite) pair graph, and decides the finiteness
-verdict as a graph property of the table; has_finite_pinperms is compared with it.
-code -> spec: accepts_input of the real automata on random longer direction words, judged by Trace_C15.
+element), checks language equivalence of that table with the tables of the automata obtained in other ways (database,
+another database directory filled in another order, asked again, basis reordered / with repetitions, make_dfa_for_perm)
+on the (finite) product graph, and decides the finiteness verdict as a graph property of the table;
+has_finite_pinperms - in several argument forms, twice, with and without the database - is compared with it.
+code -> spec: accepts_input of the real automata on the empty word, single letters and random longer direction words,
+judged by Trace_C15.
 """
+import concurrent.futures
 import itertools
 import json
+import os
+import re
+import time
 
 from permuta import Perm
 from permuta.permutils.pin_words import PinWords
@@ -51,6 +58,13 @@ def tla_table(prefix, tab):
             prefix + "InitDef": str(init)}
 
 
+def tla_tables(prefix, tabs):
+    """A sequence of exported tables (the constants Dfa2* of C15_PinLanguage)."""
+    one = [tla_table("X", t) for t in tabs]
+    seq = lambda key: "<< " + ", ".join(o["X" + key] for o in one) + " >>"
+    return {prefix + "NDef": seq("NDef"), prefix + "DeltaDef": seq("DeltaDef"), prefix + "FinalDef": seq("FinalDef"), prefix + "InitDef": seq("InitDef")}
+
+
 def bases(rnd, quick):
     out = []
     for n in (1, 2, 3):
@@ -76,7 +90,34 @@ def bases(rnd, quick):
     if not quick:
         for _ in range(20):
             out.append([util.rand_perm(rnd, rnd.choice([3, 4, 4, 5])) for _ in range(rnd.randint(2, 3))])
+    # repeated elements; an element contained in another one (listed before and after it); degenerate bases
+    out += [[(0, 2, 1), (0, 2, 1)], [(1, 0, 2), (0, 1, 2), (1, 0, 2)], [(0, 1), (0, 2, 1)], [(0, 3, 2, 1), (0, 2, 1)],
+            [(2, 0, 1), (1, 3, 0, 2), (2, 0, 1), (0, 1)], [], [()], [(), (0, 1)]]
+    # elements of length 5
+    s5 = util.perms_of(5)
+    out.append([rnd.choice(s5)])
+    out.append([(2, 0, 4, 1, 3), (0, 1, 2)])
+    if not quick:
+        out += [[p] for p in rnd.sample(s5, 24)]
+        out += [[(1, 3, 0, 4, 2), (2, 0, 4, 1, 3)], [(0, 1, 2, 3, 4), (4, 3, 2, 1, 0)], [(0, 1, 2, 3, 4), (2, 1, 0), (0, 1, 2, 3, 4)]]
+        for _ in range(12):
+            a = rnd.choice(s5)
+            out.append([a, rnd.choice(util.perms_of(4)), tuple(Perm(a).remove(rnd.randrange(5)))])   # third contained in first
     return out
+
+
+def clear_load_cache():
+    f = getattr(PinWords.load_dfa_for_perm, "cache_clear", None)
+    if f is not None:
+        f()
+    return f is not None
+
+
+def dir_words(rnd, n):
+    w = rnd.choice(DIRS)
+    while len(w) < n:
+        w += rnd.choice("LR" if w[-1] in "UD" else "UD")
+    return w
 
 
 def run(ctx):
@@ -84,84 +125,178 @@ def run(ctx):
     rnd = util.rng(ctx, 15)
     bl = bases(rnd, quick)
     maxword = 8 if quick else 10
-    jobs, meta = [], []
-    PinWords.load_dfa_for_perm.cache_clear()
-    for basis in bl:
-        B = [Perm(p) for p in basis]
-        fresh = PinWords.make_dfa_for_basis(list(B))
-        fresh2 = PinWords.make_dfa_for_basis_from_pinwords(list(reversed(B)))
-        use_db = all(len(p) <= (3 if quick else 4) for p in basis)
-        second = PinWords.make_dfa_for_basis_from_db(list(B)) if use_db else fresh2
-        defs = {"BasisDef": "{" + ", ".join(tlc.tla(list(p)) for p in basis) + "}"}
-        defs.update(tla_table("A", export(fresh)))
-        defs.update(tla_table("B", export(second)))
-        mod = util.mc_module("MC_C15", "C15_PinLanguage", defs)
-        consts = {"Basis": ("<-", "BasisDef"), "MaxWord": maxword,
-                  "DfaN": ("<-", "ANDef"), "DfaDelta": ("<-", "ADeltaDef"), "DfaFinal": ("<-", "AFinalDef"), "DfaInit": ("<-", "AInitDef"),
-                  "Dfa2N": ("<-", "BNDef"), "Dfa2Delta": ("<-", "BDeltaDef"), "Dfa2Final": ("<-", "BFinalDef"), "Dfa2Init": ("<-", "BInitDef")}
-        c1 = util.cfg(init="Init", next_="Next", invariants=["AcceptsIffContains", "EmitVerdict", "EmitRejected"], view="FullView",
-                      constants=dict(consts, Mode='"semantic"'))
-        c2 = util.cfg(init="Init", next_="Next", invariants=["DbEquivalent"], view="PairView", constants=dict(consts, Mode='"equiv"'))
-        jobs.append(("MC_C15", c1, {"files": {"MC_C15.tla": mod}, "timeout": 3000, "allow_violation": True}))
-        jobs.append(("MC_C15", c2, {"files": {"MC_C15.tla": mod}, "timeout": 3000, "allow_violation": True}))
-        meta.append((basis, use_db, fresh))
-    results = tlc.run_many(jobs, parallel=16)
-    events = []
-    for i, (basis, use_db, fresh) in enumerate(meta):
-        sem, eq = results[2 * i], results[2 * i + 1]
+    meta, events, evmeta = [], [], []
+    clear_load_cache()
+    home = os.getcwd()
+    t0 = time.time()
+    # a second database directory, filled beforehand with whole lengths (longest first)
+    other = os.path.join(home, "db-other")
+    os.makedirs(other)
+    os.chdir(other)
+    try:
+        for n in range(3 if quick else 4, -1, -1):
+            st, err = util.call(PinWords.create_dfa_db_for_length, n)
+            if st == "raise":
+                ctx.violation({"kind": "database", "length": n}, "NoException", "create_dfa_db_for_length fills the database", err)
+    finally:
+        os.chdir(home)
+    pool = concurrent.futures.ThreadPoolExecutor(max_workers=16)
+    try:
+        for bi, basis in enumerate(bl):
+            B = [Perm(p) for p in basis]
+            case = {"kind": "basis", "basis": [list(p) for p in basis]}
+            st, fresh = util.call(PinWords.make_dfa_for_basis, list(B))
+            if st == "raise":
+                ctx.violation(dict(case, form="make_dfa_for_basis"), "NoException", "an automaton", fresh)
+                continue
+            use_db = all(len(p) <= (3 if quick else 4) for p in basis)
+
+            def other_db(X=B):
+                """The database of another directory, filled beforehand (whole lengths, longest first), the elements stored
+                again from the largest down, the load cache forgotten; the basis given reversed."""
+                os.chdir(other)
+                try:
+                    for p in sorted(X, reverse=True):
+                        PinWords.store_dfa_for_perm(p)
+                    clear_load_cache()
+                    return PinWords.make_dfa_for_basis_from_db(list(reversed(X)))
+                finally:
+                    os.chdir(home)
+            # the automaton of the same basis obtained in other ways: all must have the language of `fresh`
+            always = [("basis reversed, from pinwords", lambda X=B: PinWords.make_dfa_for_basis_from_pinwords(list(reversed(X))))]
+            extra = [("from pinwords, asked again", lambda X=B: PinWords.make_dfa_for_basis_from_pinwords(list(X))),
+                     ("make_dfa_for_basis(basis, False)", lambda X=B: PinWords.make_dfa_for_basis(list(X), False))]
+            if B:
+                extra.append(("first element repeated at the end", lambda X=B: PinWords.make_dfa_for_basis(list(X) + [X[0]])))
+                extra.append(("shuffled", lambda X=B: PinWords.make_dfa_for_basis(rnd.sample(list(X), len(X)))))
+            if len(B) == 1:
+                always.append(("make_dfa_for_perm", lambda X=B: PinWords.make_dfa_for_perm(X[0])))
+            if use_db:
+                always.append(("db", lambda X=B: PinWords.make_dfa_for_basis_from_db(list(X))))
+                always.append(("db of another directory filled beforehand by create_dfa_db_for_length, load cache cleared", other_db))
+                extra += [("db, asked again", lambda X=B: PinWords.make_dfa_for_basis_from_db(list(X))),
+                          ("make_dfa_for_basis(use_db=True), basis reversed", lambda X=B: PinWords.make_dfa_for_basis(list(reversed(X)), use_db=True)),
+                          ("db, asked again after the other directory was used", lambda X=B: PinWords.make_dfa_for_basis_from_db(list(X)))]
+            if quick:
+                extra = [extra[bi % len(extra)]] if extra else []
+            variants = []
+            for name, mk in always + extra:
+                st, d = util.call(mk)
+                if st == "raise":
+                    ctx.violation(dict(case, form=name), "NoException", "an automaton", d)
+                else:
+                    variants.append((name, d))
+            defs = {"BasisDef": "{" + ", ".join(tlc.tla(list(p)) for p in set(basis)) + "}"}
+            defs.update(tla_table("A", export(fresh)))
+            defs.update(tla_tables("B", [export(d) for _, d in variants]))
+            mod = util.mc_module("MC_C15", "C15_PinLanguage", defs)
+            consts = {"Basis": ("<-", "BasisDef"), "MaxWord": maxword,
+                      "DfaN": ("<-", "ANDef"), "DfaDelta": ("<-", "ADeltaDef"), "DfaFinal": ("<-", "AFinalDef"), "DfaInit": ("<-", "AInitDef"),
+                      "Dfa2N": ("<-", "BNDef"), "Dfa2Delta": ("<-", "BDeltaDef"), "Dfa2Final": ("<-", "BFinalDef"), "Dfa2Init": ("<-", "BInitDef")}
+            c1 = util.cfg(init="Init", next_="Next", invariants=["AcceptsIffContains", "EmitVerdict", "EmitRejected"], view="FullView",
+                          constants=dict(consts, Mode='"semantic"'))
+            c2 = util.cfg(init="Init", next_="Next", invariants=["DbEquivalent"], view="PairView", constants=dict(consts, Mode='"equiv"'))
+            kw = {"files": {"MC_C15.tla": mod}, "timeout": 3000, "allow_violation": True}
+            fsem = pool.submit(tlc.run_tlc, "MC_C15", c1, **kw)
+            feq = pool.submit(tlc.run_tlc, "MC_C15", c2, **kw)
+            # the finiteness answer, asked in several ways (judged below against TLC's verdict on the exported table)
+            forms = [("fresh", lambda X=B: PinWords.has_finite_pinperms(list(X))),
+                     ("given dfa", lambda X=B, d=fresh: PinWords.has_finite_pinperms(list(X), dfa=d))]
+            more = [("fresh, asked again", lambda X=B: PinWords.has_finite_pinperms(list(X))),
+                    ("basis reversed", lambda X=B: PinWords.has_finite_pinperms(list(reversed(X)))),
+                    ("frozenset", lambda X=B: PinWords.has_finite_pinperms(frozenset(X))),
+                    ("tuple, use_db=False", lambda X=B: PinWords.has_finite_pinperms(tuple(X), use_db=False)),
+                    ("given dfa, positional", lambda X=B, d=fresh: PinWords.has_finite_pinperms(list(X), False, d))]
+            if B:
+                more.append(("an element repeated", lambda X=B: PinWords.has_finite_pinperms([X[-1]] + list(X))))
+            if use_db:
+                forms.append(("db", lambda X=B: PinWords.has_finite_pinperms(list(X), use_db=True)))
+                more += [("db, asked again", lambda X=B: PinWords.has_finite_pinperms(list(X), use_db=True)),
+                         ("db, positional, basis reversed", lambda X=B: PinWords.has_finite_pinperms(list(reversed(X)), True)),
+                         ("fresh after db", lambda X=B: PinWords.has_finite_pinperms(list(X)))]
+            if quick:
+                more = [more[(bi + j) % len(more)] for j in range(2)]
+            answers = [(name,) + util.call(mk) for name, mk in forms + more]
+            # code -> spec: accepts_input of the real automaton objects: the empty word, single letters, longer words
+            jb = [list(p) for p in basis]
+            for vi, (name, d) in enumerate([("fresh", fresh)] + variants):
+                words = [dir_words(rnd, rnd.randint(maxword + 1, maxword + 4)) for _ in range((6 if quick else 40) if vi == 0 else 2)]
+                if vi <= 1:
+                    words += ["", "U", "D", "L", "R", "UL", "RD"]
+                for w in words:
+                    st, got = util.call(d.accepts_input, w)
+                    if st == "raise":
+                        ctx.violation(dict(case, form=name, word=w), "NoException", "accepts_input answers", got)
+                        continue
+                    events.append({"op": "Accepts", "basis": jb, "m": list(w), "res": bool(got)})
+                    evmeta.append(name)
+            meta.append((basis, use_db, fresh, variants, answers, fsem, feq))
+        t_build = time.time() - t0
+        results = [(m, m[5].result(), m[6].result()) for m in meta]
+        ctx.note("phase_seconds", {"building and asking (TLC runs side by side)": round(t_build, 1), "waiting for TLC": round(time.time() - t0 - t_build, 1)})
+    finally:
+        os.chdir(home)
+        pool.shutdown(wait=False)
+    nvar = 0
+    for i, ((basis, use_db, fresh, variants, answers, _, _), sem, eq) in enumerate(results):
         ctx.add_tlc(sem, "product with the pin machine")
-        ctx.add_tlc(eq, "pair graph (%s vs fresh)" % ("db" if use_db else "reordered basis"))
+        ctx.add_tlc(eq, "product graph of the automaton and %d automata obtained in other ways" % len(variants))
         case = {"kind": "basis", "basis": [list(p) for p in basis]}
         ctx.case(tuple(map(tuple, basis)), nontrivial=True)
+        nvar += len(variants)
         if sem.violated:
             # the counterexample word is the last state's `word`
-            import re
             words = re.findall(r"word = (<<.*?>>)\n", sem.stdout)
             ctx.violation(dict(case, word=words[-1] if words else "?"), sem.violated,
                           "automaton accepts the word iff its permutation contains a basis element", "disagrees (TLC counterexample)")
             continue
         if eq.violated:
-            ctx.violation(dict(case, second="db" if use_db else "reordered"), "DbEquivalent", "language-equivalent automata", "a word separates them (TLC counterexample)")
+            # which of the further automata disagree in the last state of the counterexample
+            q1 = re.findall(r"q1 = (\d+)\n", eq.stdout)
+            q2 = re.findall(r"q2 = <<(.*?)>>\n", eq.stdout)
+            names = []
+            if q1 and q2:
+                acc = int(q1[-1]) in export(fresh)[2]
+                states = [int(x) for x in q2[-1].split(",") if x.strip()]
+                names = [variants[k][0] for k, q in enumerate(states) if (q in export(variants[k][1])[2]) != acc]
+            ctx.violation(dict(case, second=names or [n for n, _ in variants]), "DbEquivalent", "language-equivalent automata",
+                          "a word separates them (TLC counterexample)")
         verdict = [r for r in sem.records if "finite" in r]
         if len(verdict) != 1:
             raise tlc.MachineryFailure("C15: no finiteness verdict emitted for %s" % basis)
-        B = [Perm(p) for p in basis]
-        for form, mk in (("fresh", lambda: PinWords.has_finite_pinperms(list(B))), ("given dfa", lambda: PinWords.has_finite_pinperms(list(B), dfa=fresh)),
-                         ("db", lambda: PinWords.has_finite_pinperms(list(B), use_db=True) if use_db else verdict[0]["finite"])):
-            st, got = util.call(mk)
-            if st == "raise" or got != verdict[0]["finite"]:
+        for form, st, got in answers:
+            ctx.case()
+            if st == "raise" or got is not verdict[0]["finite"]:
                 ctx.violation(dict(case, form=form), "FiniteIffBounded", verdict[0]["finite"], got)
         rej = {}
         for r in sem.records:
             if "rej" in r:
                 rej[r["rej"]] = rej.get(r["rej"], 0) + 1
-        if verdict[0]["finite"] and rej.get(maxword, 0) > 0 and maxword > 2 * max(map(len, basis)) + 4:
+        if verdict[0]["finite"] and rej.get(maxword, 0) > 0 and basis and maxword > 2 * max(map(len, basis)) + 4:
             ctx.drift("basis %s: verdict finite but %d avoiding pin sequences of length %d" % (basis, rej[maxword], maxword))
         if i < 3:
             ctx.sample({"basis": basis, "dfa_states": len(fresh.states), "finite": verdict[0]["finite"], "rejected_words_by_length": rej})
-        # code -> spec: random longer words
-        for _ in range(6 if quick else 40):
-            n = rnd.randint(maxword + 1, maxword + 4)
-            w = rnd.choice(DIRS)
-            while len(w) < n:
-                w += rnd.choice("LR" if w[-1] in "UD" else "UD")
-            events.append({"op": "Accepts", "basis": [list(p) for p in basis], "m": list(w), "res": bool(fresh.accepts_input(w))})
     ctx.exhaustive = True
-    # words beyond the exhaustive bound, judged by the pin semantics
-    k = {"Mode": '"trace"', "Basis": "{}", "MaxWord": 0, "DfaN": 1, "DfaDelta": "<<>>", "DfaFinal": "{}", "DfaInit": 1,
-         "Dfa2N": 1, "Dfa2Delta": "<<>>", "Dfa2Final": "{}", "Dfa2Init": 1}
-    chunks = [events[i::8] for i in range(8)]
-    import concurrent.futures
+    ctx.note("bases", len(bl))
+    ctx.note("automata_obtained_in_other_ways", nvar)
+    # words beyond the exhaustive bound (and the shortest ones, through accepts_input), judged by the pin semantics
+    idx = list(range(len(events)))
+    chunks = [idx[i::8] for i in range(8)]
     with concurrent.futures.ThreadPoolExecutor(max_workers=8) as ex:
-        vs = list(ex.map(lambda ch: util.validate_trace(ctx, "Trace_C15", ch, ntraces=len(ch), timeout=3000) if ch else {"verdict": []}, chunks))
+        vs = list(ex.map(lambda ch: util.validate_trace(ctx, "Trace_C15", [events[j] for j in ch], ntraces=len(ch), timeout=3000) if ch else {"verdict": []}, chunks))
     for ch, v in zip(chunks, vs):
         for b in v["verdict"]:
-            ev = ch[b["i"] - 1]
-            ctx.violation({"kind": "trace-event", "event": ev}, b["clause"], "accepts iff the encoded permutation contains a basis element", ev["res"])
+            ev = events[ch[b["i"] - 1]]
+            ctx.violation({"kind": "trace-event", "event": ev, "automaton": evmeta[ch[b["i"] - 1]]}, b["clause"],
+                          "accepts iff the encoded permutation contains a basis element", ev["res"])
     ctx.case(n=len(events))
-    ctx.rule = ("for every basis of the list the exported automaton is run in product with the pin machine over every word of "
-                "the pin-sequence language up to length %d (TLC invariant), db/reordered automaton equivalence on the pair graph, "
-                "finiteness as a graph property of the table vs has_finite_pinperms; random longer words via Trace_C15" % maxword)
+    ctx.rule = ("for every basis of the list (singletons, pairs, unsorted, repeated elements, an element contained in another, non-pin "
+                "elements, the empty basis, the empty permutation, length 5) the exported automaton is run in product with the pin "
+                "machine over every word of the pin-sequence language up to length %d (TLC invariant); the automata obtained in other "
+                "ways (database, database of another directory filled in another order with the load cache cleared, asked again, "
+                "reordered / repeated basis, make_dfa_for_perm) are compared with it on the product graph (TLC); finiteness as a graph "
+                "property of the table vs has_finite_pinperms in several argument forms and orders; accepts_input on the empty word, "
+                "single letters and random longer words via Trace_C15" % maxword)
     ctx.assumptions.append("word-level semantics decided up to the bound; beyond it only the automaton-internal consistency (equivalence, graph verdict)")
 
 
